@@ -378,9 +378,11 @@ class SSETransport(Transport):
                 f"Received SSE message: {message_data.get('method', 'response')} (id: {message_data.get('id')})"
             )
 
-            # Check if this is a response to a pending request
+            # Check if this is a response to a pending request (a request of the
+            # server's own may bear the same id - ids are per direction - and is
+            # not an answer)
             message_id = message_data.get("id")
-            if message_id is not None:
+            if message_id is not None and "method" not in message_data:
                 message_id = str(message_id)
                 deliver_here = False
                 async with self._message_lock:
